@@ -213,3 +213,31 @@ class Check:
             print(l)
         sys.stdout.flush()
         return 1 if (unlisted or self.failclosed) else 0
+
+
+def run_witness(chk, rid, what):
+    """E3: type-level witnesses. quick tier = compile-pass items (cargo +nightly check of witness/); thorough tier additionally runs the
+    compile_fail,E0xxx doctests with their compiling twins. The outcome is cached per fact base (same source tree)."""
+    import subprocess
+    mode = "thorough" if chk.tier == "thorough" else "quick"
+    chk.rule(rid, "type-level witnesses (%s): %s" % (mode, what), floor=1)
+    cache = os.path.join(chk.facts.path, "cache", "witness-%s.json" % mode)
+    res = None
+    if os.path.exists(cache):
+        try:
+            res = json.load(open(cache))
+        except ValueError:
+            res = None
+    if res is None:
+        env = dict(os.environ)
+        env["VERIF_REPO"] = chk.repo
+        p = subprocess.run([os.path.join(VERIF, "bin", "witness"), mode], capture_output=True, text=True, env=env)
+        res = {"rc": p.returncode, "out": (p.stdout + p.stderr)[-3000:]}
+        os.makedirs(os.path.dirname(cache), exist_ok=True)
+        json.dump(res, open(cache, "w"))
+    tests = [l for l in res["out"].splitlines() if l.startswith("test ")]
+    d = {"mode": mode, "rc": res["rc"], "doctests": tests[:12]}
+    chk.instance(rid, d, ok=(res["rc"] == 0))
+    if res["rc"] != 0:
+        chk.violation(rid, "witness/src/lib.rs", "vrl-witness", "witness crate (%s)" % mode,
+                      "a type-level witness no longer holds: %s" % (res["out"].strip().splitlines()[-1] if res["out"].strip() else "cargo failed"), detail=d)
